@@ -1015,7 +1015,9 @@ func checkIPv6(data string) bool {
 			if len(f) > 4 {
 				return false
 			}
-			n := std.Atoi(f, 16)
+			// std.Atoi treats base 16 input as two's complement: without the
+			// leading zero groups like "8000", "db9" or "800" come out negative.
+			n := std.Atoi("0"+f, 16)
 			if 65535 < n {
 				panic("fragment overflows uint16: " + f)
 			}
